@@ -319,13 +319,32 @@ func c01NewMessage(r *Run, codes map[string]int64) {
 				continue // "not mine" result of a lookup helper
 			}
 			v := stripConv(ret.Results[0])
-			// a value obtained from a lookup helper and known non-nil here
-			if c, ok := v.(*ssa.Call); ok && depth < 2 {
-				if g := staticCallee(&c.Call); g != nil && g.Blocks != nil && g.Pkg == fn.Pkg && knownNonNilAt(c, ret) {
-					for i, a := range c.Call.Args {
-						if a == prm && i < len(g.Params) {
-							r.SawFn(fnName(g))
-							table(g, g.Params[i], -1, depth+1)
+			// a value obtained from a lookup helper (or the first non-nil of several: a phi of such calls) and known
+			// non-nil here
+			if depth < 2 && knownNonNilAt(v, ret) {
+				viaHelpers := true
+				var calls []*ssa.Call
+				for _, alt := range phiAlternatives(v, 3) {
+					c, ok := stripConv(alt).(*ssa.Call)
+					if !ok {
+						viaHelpers = false
+						break
+					}
+					g := staticCallee(&c.Call)
+					if g == nil || g.Blocks == nil || g.Pkg != fn.Pkg {
+						viaHelpers = false
+						break
+					}
+					calls = append(calls, c)
+				}
+				if viaHelpers && len(calls) > 0 {
+					for _, c := range calls {
+						g := staticCallee(&c.Call)
+						for i, a := range c.Call.Args {
+							if a == prm && i < len(g.Params) {
+								r.SawFn(fnName(g))
+								table(g, g.Params[i], -1, depth+1)
+							}
 						}
 					}
 					continue
@@ -510,17 +529,27 @@ func c01MarshalFresh(r *Run) {
 			continue
 		}
 		n++
-		ok := false
+		ok := true
 		why := "the returned slice is not the contents of a buffer created in this call"
-		if c, isC := ret.Results[0].(*ssa.Call); isC && calleeName(&c.Call) == "(*bytes.Buffer).Bytes" {
-			if a, isA := c.Call.Args[0].(*ssa.Alloc); isA && a.Parent() == m {
-				ok = true
-			} else {
-				why = "the buffer whose bytes are returned is not a local of this call (pooled/shared): a later Marshal overwrites bytes the caller still holds"
+		// every value the result can be (a named result assigned on one branch only merges with nil)
+		for _, alt := range phiAlternatives(ret.Results[0], 3) {
+			okAlt := false
+			if isNilConst(alt) {
+				okAlt = true
 			}
-		}
-		if ms, isM := ret.Results[0].(*ssa.MakeSlice); isM && ms.Parent() == m {
-			ok = true
+			if c, isC := alt.(*ssa.Call); isC && calleeName(&c.Call) == "(*bytes.Buffer).Bytes" {
+				if a, isA := c.Call.Args[0].(*ssa.Alloc); isA && a.Parent() == m { // `var b bytes.Buffer` or new(bytes.Buffer)
+					okAlt = true
+				} else {
+					why = "the buffer whose bytes are returned is not a local of this call (pooled/shared): a later Marshal overwrites bytes the caller still holds"
+				}
+			}
+			if ms, isM := alt.(*ssa.MakeSlice); isM && ms.Parent() == m {
+				okAlt = true
+			}
+			if !okAlt {
+				ok = false
+			}
 		}
 		r.Check(ok, "marshal-fresh", "Marshal: the encoded bytes live in a buffer created by this call", ret.Pos(), why)
 	}
